@@ -374,6 +374,17 @@ fn handle_established(
             }
         }
 
+        // A segment that occupies sequence space but was not accepted (a
+        // retransmission of data we already have, data beyond a full
+        // buffer, a repeated FIN) still gets an ACK carrying our current
+        // `rcv_nxt`: its sender retransmitted because our earlier ACK
+        // never arrived, and staying silent would run it into retransmit
+        // exhaustion (RFC 793: an unacceptable segment is answered with
+        // an ACK).
+        if !send_ack && (!s.payload.is_empty() || s.flags.fin) {
+            send_ack = true;
+        }
+
         if wake_write {
             st.wake_write();
         }
